@@ -143,3 +143,11 @@ Example ex_persist_calls :
   [[(6667, false); (6697, true)]; [(6697, true)]; [(6697, true)]; [(6697, true)]]%Z /\
   List.map sts_enabled (policies_before sort_strs ex_cfg 6667 sts_init calls) = [false; true; true; true].
 Proof. vm_compute. repeat split. Qed.
+
+(* the server hangs up at the moment of the acknowledgement: same dials, same result *)
+Example ex_upgrade_peer_hangs_up :
+  let r := start_conn sort_strs ex_cfg 6667 sts_init [with_end EndIOError ex_plain; ex_tls] in
+  List.map (fun l => (l_port l, l_tls l, l_connected l)) (fst (fst r)) = [(6667, false, true); (6697, true, true)]%Z /\
+  snd (fst r) = RNil /\ snd r = mkSts false 6697 600 ex_t false time_zero /\
+  r = start_conn sort_strs ex_cfg 6667 sts_init [ex_plain; ex_tls].
+Proof. vm_compute. repeat split. Qed.
